@@ -3,6 +3,7 @@ package sim
 import (
 	"context"
 	"fmt"
+	"os"
 	"reflect"
 	"strings"
 	"testing"
@@ -27,10 +28,11 @@ const (
 	dGlobalCounter
 	dGlobalMap
 	dCallChain
+	dLockedFunc
 	nDefKinds
 )
 
-var defKindName = [...]string{"named-func", "method", "closure-var", "counter-closure", "method-value", "chan-func", "defer-func", "global-counter", "global-map", "call-chain"}
+var defKindName = [...]string{"named-func", "method", "closure-var", "counter-closure", "method-value", "chan-func", "defer-func", "global-counter", "global-map", "call-chain", "locked-func"}
 
 type c10Def struct {
 	kind    int
@@ -63,6 +65,8 @@ func (d *c10Def) src(j int) string {
 		return fmt.Sprintf("var gc%d = %d\nfunc Inc%d(d int) int { gc%d += d; return gc%d * %d }", j, d.b, j, j, j, d.a)
 	case dGlobalMap:
 		return fmt.Sprintf("var gm%d = map[int]int{0: %d}\nvar gs%d []int\nfunc Put%d(v int) int { gm%d[len(gm%d)] = v; gs%d = append(gs%d, v); return len(gm%d)*%d + len(gs%d) + gm%d[0] }", j, d.b, j, j, j, j, j, j, j, d.a, j, j)
+	case dLockedFunc:
+		return fmt.Sprintf("var lm%d sync.Mutex\nvar lw%d sync.WaitGroup\nfunc L%d(x int) int { host.Tick(%d); lm%d.Lock(); defer lm%d.Unlock(); lw%d.Add(1); defer lw%d.Done(); host.Tick(%d); s := 0; for i := 0; i < 12; i++ { s += i }; return x*%d + %d + s*0 }", j, j, j, 6100+j, j, j, j, j, 6110+j, d.a, d.b)
 	case dCallChain:
 		return fmt.Sprintf("func ca%d(x int) int { return cb%d(x) + %d }\nfunc cb%d(x int) int { return cc%d(x) * %d }\nfunc cc%d(x int) int { if x > 100 { return x }; return x + 1 }", j, j, d.b, j, j, d.a, j)
 	}
@@ -91,6 +95,8 @@ func (d *c10Def) callee(j int) string {
 		return fmt.Sprintf("Put%d", j)
 	case dCallChain:
 		return fmt.Sprintf("ca%d", j)
+	case dLockedFunc:
+		return fmt.Sprintf("L%d", j)
 	}
 	return ""
 }
@@ -98,7 +104,7 @@ func (d *c10Def) callee(j int) string {
 // model applies one call and returns the expected result.
 func (d *c10Def) model(x int) int {
 	switch d.kind {
-	case dFunc, dClosureVar, dChanFunc:
+	case dFunc, dClosureVar, dChanFunc, dLockedFunc:
 		return x*d.a + d.b
 	case dMethod:
 		return x + d.b*d.a
@@ -194,11 +200,19 @@ func RunC10(t *testing.T, tape *Tape) *Outcome {
 	var mism []mismatch
 	var setupErr string
 	cancels, usesAfterCancel := 0, 0
+	lockWindows := 0
+	opsAtReturn := map[*Task]int{} // leftovers of cancelled evaluations: operations started when their call returned
+	var sinkC10 *host.Sink
 	var i1fail []string
 	res := Simulate(t, tape, cfg, func(r *Run) {
-		host.Cur.Store(r.NewSink(8192, nil))
+		sinkC10 = r.NewSink(65536, nil)
+		host.Cur.Store(sinkC10)
 		r.Spawn("c0", func() {
 			it := NewInterpFS(nil)
+			if _, err := it.Eval(`import "sync"`); err != nil {
+				setupErr = "import of sync failed: " + err.Error()
+				return
+			}
 			if _, err := it.Eval(`import "verif/sim/host"`); err != nil {
 				setupErr = "import of the host package failed: " + err.Error()
 				return
@@ -309,6 +323,29 @@ func RunC10(t *testing.T, tape *Tape) *Outcome {
 					r.Disarm()
 					cancel()
 					cancels++
+					for _, tk := range r.Tasks() {
+						if !tk.Client && !tk.Exited() {
+							if _, seen := opsAtReturn[tk]; !seen {
+								opsAtReturn[tk] = tk.Ops
+							}
+						}
+					}
+					if s.CK == xCallsDef && d.kind == dLockedFunc {
+						// A cancellation between Lock and the registration of the deferred
+						// Unlock leaves the mutex locked for good: that is inherent to
+						// stopping after the operation in flight, not what is judged here.
+						// If the last marker of L is the one before Lock, L is not used again.
+						last := 0
+						for _, e := range sinkC10.Events() {
+							if e.Kind == host.KTick && (e.Tag == 6100+s.Def || e.Tag == 6110+s.Def) {
+								last = e.Tag
+							}
+						}
+						if last == 6100+s.Def {
+							d.desync = true
+							lockWindows++
+						}
+					}
 					if err != context.Canceled {
 						i1fail = append(i1fail, fmt.Sprintf("step %d (%s): EvalWithContext returned %v", si, cancelKindName[s.CK], err))
 					}
@@ -337,7 +374,27 @@ func RunC10(t *testing.T, tape *Tape) *Outcome {
 	}
 	o.NonTrivial = cancels > 0 && usesAfterCancel > 0
 	o.FaultFired["cancelled-evals"] += cancels
+	if os.Getenv("VERIF_DEBUG") != "" && sinkC10 != nil {
+		var evs []string
+		for _, e := range sinkC10.Events() {
+			evs = append(evs, fmt.Sprintf("t%d:%d@%d", e.Task, e.Tag, e.Seq))
+		}
+		o.Detail["events"] = evs
+	}
 	o.FaultFired["uses-after-a-cancel"] += usesAfterCancel
+	o.FaultFired["cancel-between-lock-and-defer-unlock (not judged)"] += lockWindows
+	// Known finding of C09 (the code of a cancelled evaluation running in the
+	// shared root frame resumes when the next evaluation starts at once): when it
+	// happened in this history, the later steps ran concurrently with resumed
+	// code (which may call definitions, hold their locks ...). The history is
+	// reported under that finding only; what else went wrong may be a consequence.
+	for tk, n := range opsAtReturn {
+		if tk.Ops-n > 1 {
+			o.addV("C10", "isolation", "history-disturbed-by-resumed-cancelled-code",
+				"task %s of a cancelled evaluation started %d more operations after its call had returned (the next evaluation refreshed the root frame's run id): later steps ran concurrently with it", tk.Name, tk.Ops-n)
+			return o
+		}
+	}
 	if r.Deadlock {
 		o.addV("C10", "progress", "history-stuck", "the history did not complete: %s", r.DeadlockInfo)
 		return o
